@@ -100,7 +100,7 @@ class World:
             self.alias = None
         self.fio = {}
         self.cds = [self.root / 'c1', self.root / 'c2']
-        self.vers = ['3.7', '3.10', '3.13']
+        self.vers = ['3.7', '3.10', '%d.%d' % sys.version_info[:2], 'custom36']      # custom36: load_grammar(path=<a copy of grammar36.txt>), default version_info
         self.cur = {}
         self.seen = {}
         # the modification-time line each file lives on: the clock, or absolute values a clock-based line never shows
@@ -153,6 +153,18 @@ OPS = ['write', 'write', 'parse', 'parse', 'parse', 'parse_diff', 'parse_nocache
        'parse_code', 'fill', 'inflight', 'inflight', 'parse_fio', 'parse_fio']
 
 
+def _grammar(v):
+    import parso
+    if v != 'custom36':
+        return parso.load_grammar(version=v)
+    if 'custom36' not in _state:
+        d = tempfile.mkdtemp(prefix='vmon16g-')
+        p = os.path.join(d, 'mygrammar.txt')
+        shutil.copy(os.path.join(harness.REPO, 'parso', 'python', 'grammar36.txt'), p)
+        _state['custom36'] = p
+    return parso.load_grammar(path=_state['custom36'])
+
+
 def run_history(ctx, rng, ops=None, inject=None, timelines=None, initial=None):
     """ops: list of (op, file index, version, cache dir index, content or None) to replay; else random"""
     import parso
@@ -186,7 +198,7 @@ def run_history(ctx, rng, ops=None, inject=None, timelines=None, initial=None):
             f, cd = w.files[2 if fi == 3 else fi], w.cds[ci]
             # the path the parse calls use: for file 2 sometimes its spelling through the symlinked directory
             fp = w.alias if (fi == 3 and w.alias is not None and op.startswith('parse')) else f
-            g = parso.load_grammar(version=v)
+            g = _grammar(v)
             log.append([op, fi, v, ci, new])
             wit = {'ops': list(log), 'timelines': list(w.timelines), 'initial': list(initial)}
             clk.tick()
@@ -217,17 +229,17 @@ def run_history(ctx, rng, ops=None, inject=None, timelines=None, initial=None):
                 if op == 'fill':
                     # push the memory cache over the eviction trigger with unrelated virtual entries
                     # fillers live under the hashes of the real grammars (in a rotating order), as other modules of a project would
-                    hs = [parso.load_grammar(version=x)._hashed for x in w.vers]
+                    hs = [_grammar(x)._hashed for x in w.vers]
                     rot = len(log) % 3
-                    hs = hs[rot:] + hs[:rot]
+                    hs = hs[rot % len(hs):] + hs[:rot % len(hs)]
                     for k in range(C._CACHED_SIZE_TRIGGER + 5):
-                        C._set_cache_item(hs[k % 3], pathlib.Path('/virt/filler%d' % k), C._NodeCacheItem(None, [], clk.L))
+                        C._set_cache_item(hs[k % len(hs)], pathlib.Path('/virt/filler%d' % k), C._NodeCacheItem(None, [], clk.L))
                     clk.tick(700)      # the fillers are now older than the 10-minute survival: the next save runs the eviction
                     if rng.random() < .7 or ops is not None:
                         # the save that triggers the eviction, then the same unchanged file through another grammar
                         others = [x for x in w.vers if x != v]
                         for vv in [v, others[len(log) % 2]]:
-                            gg = parso.load_grammar(version=vv)
+                            gg = _grammar(vv)
                             mm = gg.parse(path=f, cache=True, cache_path=cd)
                             w.stamp_cache()
                             ctx.count('evaluations')
@@ -263,7 +275,10 @@ def run_history(ctx, rng, ops=None, inject=None, timelines=None, initial=None):
                                 world.write(f, new)
                                 return data
                         # half of the in-flight writes hit an incremental (diff_cache) re-parse
-                        m = g.parse(path=f, cache=True, cache_path=cd, file_io=Racy(f), diff_cache=(len(log) % 2 == 0))
+                        # a third of them through the incremental parser alone (diff_cache without cache: nothing is pickled)
+                        m = g.parse(path=f, cache=(len(log) % 3 != 0), cache_path=cd, file_io=Racy(f), diff_cache=(len(log) % 2 == 0 or len(log) % 3 == 0))
+                        if len(log) % 3 == 0:
+                            ctx.count('inflight_writes_during_a_diff_cache_only_parse')
                     else:
                         m = inject(lambda: g.parse(path=f, cache=True, cache_path=cd, diff_cache=(len(log) % 2 == 0)), lambda: w.write(f, new))
                     wrote.add(f)
